@@ -111,6 +111,9 @@ def require(ctx, tier):
             raise HarnessError(f"C06 generator never produced class {lab!r}")
 
 
+# thorough tier: libFuzzer (atheris) also drives this strategy with coverage feedback from d42
+COVERAGE_GUIDED = {"runs": 60000, "seconds": 120}
+
 MANIFEST = {
     "text": "Round-trip search: repr -> eval -> compare (independent canon, d42 ==, repr again) over "
             "generated schemas covering every prop combination the generator can declare; finds any "
